@@ -59,7 +59,7 @@ Section Preserve.
   Lemma consume_cs_pres ms : forall e, P e -> P (consume_cs ms e).
   Proof.
     induction ms as [|m r IH]; intros e H; cbn [consume_cs]; [assumption|].
-    destruct m; try (apply IH; assumption). apply IH. destruct (N.eqb mode 2); [apply P_cs|]; assumption.
+    apply IH. destruct (m_taken m); [apply P_cs|]; assumption.
   Qed.
 
   Theorem env_join_pres e av eids hs k ms : P e -> P (fst (env_join e av eids hs k ms)).
